@@ -137,8 +137,29 @@ def _transformations():
         ('categorical APGR', lambda m: m.replace(datainfo=m.datainfo.set_column(
             m.datainfo['APGR'].replace(type='covariate', scale='ordinal', categories=tuple(
                 sorted(set(int(x) for x in m.dataset['APGR']))))))),
+        # iv+oral: the dose also goes into CENTRAL (what create_basic_pk_model('ivoral') builds), so
+        # that two compartments carry the dose symbol while others do not; then an edit that
+        # substitutes that symbol in the ODE system (CompartmentalSystem.subs)
+        ('iv+oral dose into CENTRAL', _ivoral),
+        ('iv+oral, peripheral, rename_symbols(AMT)', lambda m: pm.rename_symbols(
+            pm.add_peripheral_compartment(_ivoral(m)), {'AMT': 'DOSE'})),
+        ('rename_symbols(AMT)', lambda m: pm.rename_symbols(m, {'AMT': 'DOSE'})),
     ]
     return T
+
+
+def _ivoral(m):
+    import pharmpy.modeling as pm
+    from pharmpy.basic import Expr
+    from pharmpy.model import Bolus, CompartmentalSystem, CompartmentalSystemBuilder
+    if not pm.has_first_order_absorption(m):
+        m = pm.set_first_order_absorption(m)
+    ode = m.statements.ode_system
+    cb = CompartmentalSystemBuilder(ode)
+    central = cb.find_compartment('CENTRAL')
+    cb.set_dose(central, (Bolus(Expr.symbol('AMT'), admid=2),))
+    return m.replace(statements=m.statements.before_odes + CompartmentalSystem(cb) +
+                     m.statements.after_odes)
 
 
 def _with_individual_estimates(m):
@@ -496,6 +517,21 @@ def node_main(args):
         except Exception as e:
             rec['error'] = f'{type(e).__name__}: {e}'[:300]
         out.append(rec)
+    if args.start == 0:
+        # fixed regression scenario for finding F12: CompartmentalSystem.subs relabelled the
+        # compartments in the iteration order of a set
+        rec = {'index': -4, 'family': 'plain',
+               'history': ['iv+oral dose into CENTRAL', 'add_peripheral_compartment',
+                           'add_peripheral_compartment', 'rename_symbols(AMT)']}
+        try:
+            import pharmpy.modeling as pm
+            b4 = base0.replace(dataset=base0.dataset.copy())
+            M4 = pm.rename_symbols(pm.add_peripheral_compartment(pm.add_peripheral_compartment(
+                _ivoral(b4))), {'AMT': 'DOSE'})
+            rec['A'] = _facts(M4, ModelHash)
+        except Exception as e:
+            rec['error'] = f'{type(e).__name__}: {e}'[:300]
+        out.append(rec)
     del stored
     out.sort(key=lambda r: (r['index'] < 0, r['index'] if r['index'] >= 0 else -r['index']))
     with open(args.out, 'w') as fh:
@@ -725,12 +761,15 @@ def main(argv):
             return 0
         if args.tier == 'thorough':
             count = args.count or 1600
-            hashseeds = ['0', '1', '2', '42', '1234', '99999', str(7919 * args.seed % 4294967295), '777']
+            hashseeds = ['0', '1', '2', '3', '5', '42', '1234', '99999',
+                         str(7919 * args.seed % 4294967295), '777', '31337', '4294967295']
             chunks = 2
         else:
             count = args.count or 180
-            hashseeds = ['0', '1', str((7919 * args.seed + 13) % 4294967295)]
-            chunks = 5
+            # six nodes: an order that depends on the hash seed in only two ways (two set elements)
+            # escapes three nodes one time in four, six nodes one time in thirty-two
+            hashseeds = ['0', '1', '2', '42', str((7919 * args.seed + 13) % 4294967295), '777']
+            chunks = 3
         outs, errs = run_batch(args.seed, count, hashseeds, scratch, per_node_chunks=chunks)
         if errs:
             for e in errs:
